@@ -16,305 +16,12 @@ set_option linter.unusedVariables false
 namespace Sozu.Tls
 open Sozu Sozu.Trie
 
--- =============================================================== part 1 ==
-
-/-- `joinRev ["org","example"] "www" = "www.example.org"` -/
-def joinRev : List Bytes → Bytes → Bytes
-  | [], l => l
-  | d :: ds, l => joinRev ds l ++ DOT :: d
-
-theorem joinRev_cons_left (x : Nat) (ds : List Bytes) (l : Bytes) :
-    joinRev ds (x :: l) = x :: joinRev ds l := by
-  induction ds with
-  | nil => rfl
-  | cons d ds ih => simp [joinRev, ih]
-
-theorem joinRev_eq_append (ds : List Bytes) (l : Bytes) : joinRev ds l = l ++ joinRev ds [] := by
-  induction l with
-  | nil => simp
-  | cons x l ih => rw [joinRev_cons_left, ih]; rfl
-
-theorem joinRev_snoc (ds : List Bytes) (m l : Bytes) :
-    joinRev (ds ++ [m]) l = l ++ DOT :: joinRev ds m := by
-  induction ds with
-  | nil => simp [joinRev]
-  | cons d ds ih => simp [joinRev, ih]
-
-/-- every byte string is a dotted sequence of dot-free labels -/
-theorem exists_joinRev (n : Bytes) :
-    ∃ ds l, n = joinRev ds l ∧ DOT ∉ l ∧ ∀ d ∈ ds, DOT ∉ d := by
-  induction n with
-  | nil => exact ⟨[], [], rfl, by simp, by simp⟩
-  | cons x n ih =>
-    obtain ⟨ds, l, rfl, hl, hds⟩ := ih
-    by_cases hx : x = DOT
-    · subst hx
-      refine ⟨ds ++ [l], [], ?_, by simp, ?_⟩
-      · rw [joinRev_snoc]; rfl
-      · intro d hd
-        rcases List.mem_append.mp hd with h | h
-        · exact hds d h
-        · simp at h; subst h; exact hl
-    · refine ⟨ds, x :: l, (joinRev_cons_left x ds l).symm, ?_, hds⟩
-      intro h
-      rcases List.mem_cons.mp h with h | h
-      · exact hx h.symm
-      · exact hl h
-
-theorem joinRev_nil_head (ds : List Bytes) (h : ds ≠ []) : (joinRev ds []).head? = some DOT := by
-  induction ds with
-  | nil => exact absurd rfl h
-  | cons d ds ih =>
-    cases ds with
-    | nil => simp [joinRev]
-    | cons d' ds' =>
-      have := ih (by simp)
-      simp only [joinRev] at this ⊢
-      cases hj : joinRev ds' [] ++ DOT :: d' with
-      | nil => simp at hj
-      | cons y ys => rw [hj] at this; simpa using this
-
-/-- the left-most label of a name that is non-empty and does not start with a dot -/
-theorem leftmost_ne_nil {ds : List Bytes} {l : Bytes}
-    (h1 : joinRev ds l ≠ []) (h2 : (joinRev ds l).head? ≠ some DOT) : l ≠ [] := by
-  intro hl
-  subst hl
-  by_cases hd : ds = []
-  · subst hd; exact h1 rfl
-  · exact h2 (joinRev_nil_head ds hd)
-
--- ---- findLast
-
-theorem find?_getD_append (s : Bytes) (x b : Nat) (l : List Nat) (h : ∀ i ∈ l, i < s.length) :
-    l.find? (fun i => (s ++ [x]).getD i 0 = b) = l.find? (fun i => s.getD i 0 = b) := by
-  induction l with
-  | nil => rfl
-  | cons i l ih =>
-    have hi : i < s.length := h i (by simp)
-    have : (s ++ [x]).getD i 0 = s.getD i 0 := by
-      simp [List.getD_eq_getElem?_getD, List.getElem?_append_left hi]
-    simp only [List.find?_cons, this]
-    rw [ih (fun j hj => h j (List.mem_cons_of_mem _ hj))]
-
-theorem findLast_snoc (s : Bytes) (x b : Nat) :
-    findLast (s ++ [x]) b = if x = b then some s.length else findLast s b := by
-  unfold findLast
-  simp only [List.length_append, List.length_singleton, List.range_succ, List.reverse_append,
-    List.reverse_singleton, List.singleton_append, List.find?_cons]
-  have hx : (s ++ [x]).getD s.length 0 = x := by
-    simp [List.getD_eq_getElem?_getD]
-  rw [hx]
-  by_cases h : x = b
-  · simp [h]
-  · simp only [h, decide_false, if_false]
-    exact find?_getD_append s x b _ (by intro i hi; simpa using hi)
-
-theorem rev_induction {P : Bytes → Prop} (h0 : P []) (h1 : ∀ l x, P l → P (l ++ [x])) : ∀ l, P l := by
-  intro l
-  have : ∀ r : Bytes, P r.reverse := by
-    intro r
-    induction r with
-    | nil => exact h0
-    | cons x r ih => simpa using h1 _ x ih
-  simpa using this l.reverse
-
-theorem findLast_none (l : Bytes) (b : Nat) : b ∉ l → findLast l b = none := by
-  refine rev_induction (P := fun l => b ∉ l → findLast l b = none) (fun _ => rfl) ?_ l
-  intro l x ih h
-  rw [findLast_snoc]
-  have hx : x ≠ b := by intro e; apply h; simp [e]
-  simp only [hx, if_false]
-  exact ih (by intro hb; apply h; simp [hb])
-
-theorem findLast_join (p d : Bytes) (b : Nat) : b ∉ d → findLast (p ++ b :: d) b = some p.length := by
-  refine rev_induction (P := fun d => b ∉ d → findLast (p ++ b :: d) b = some p.length) ?_ ?_ d
-  · intro _
-    have : p ++ [b] = p ++ [b] := rfl
-    rw [findLast_snoc]; simp
-  · intro d x ih h
-    have hx : x ≠ b := by intro e; apply h; simp [e]
-    have : p ++ b :: (d ++ [x]) = (p ++ b :: d) ++ [x] := by simp
-    rw [this, findLast_snoc]
-    simp only [hx, if_false]
-    exact ih (by intro hb; apply h; simp [hb])
-
--- ---- splitKey
-
-theorem getLast?_ne_of_not_mem (pk : Bytes) (b : Nat) (h : b ∉ pk) : pk.getLast? ≠ some b := by
-  intro e
-  exact h (List.mem_of_getLast? e)
-
-theorem splitKeyAux_join (ds : List Bytes) (l : Bytes) (hl : l ≠ [])
-    (hdl : DOT ∉ l) (hds : ∀ d ∈ ds, DOT ∉ d) (hs : SLASH ∉ joinRev ds l) :
-    ∀ fuel, ds.length < fuel → splitKeyAux fuel (joinRev ds l) = some (keySteps ds l) := by
-  induction ds with
-  | nil =>
-    intro fuel hf
-    cases fuel with
-    | zero => omega
-    | succ f =>
-      simp only [joinRev] at hs ⊢
-      simp only [splitKeyAux, hl, if_false, getLast?_ne_of_not_mem l SLASH hs,
-        findLast_none l DOT hdl, keySteps_nil]
-  | cons d ds ih =>
-    intro fuel hf
-    cases fuel with
-    | zero => omega
-    | succ f =>
-      have hs' : SLASH ∉ joinRev ds l := by
-        intro h; apply hs; simp [joinRev, h]
-      have hd : DOT ∉ d := hds d (by simp)
-      have hne : joinRev (d :: ds) l ≠ [] := by simp [joinRev]
-      have ih' := ih (fun d' h' => hds d' (List.mem_cons_of_mem _ h')) hs' f (by simp at hf; omega)
-      simp only [splitKeyAux, hne, if_false, getLast?_ne_of_not_mem _ SLASH hs]
-      simp only [joinRev, findLast_join (joinRev ds l) d DOT hd]
-      have ht : (joinRev ds l ++ DOT :: d).take (joinRev ds l).length = joinRev ds l := by simp
-      have hdr : (joinRev ds l ++ DOT :: d).drop ((joinRev ds l).length + 1) = d := by
-        rw [List.drop_append]; simp
-      rw [ht, hdr, ih']
-      rfl
-
-theorem joinRev_length (ds : List Bytes) (l : Bytes) (hl : l ≠ []) : ds.length < (joinRev ds l).length := by
-  induction ds with
-  | nil => simp [joinRev]; exact List.length_pos_iff.mpr hl
-  | cons d ds ih => simp [joinRev]; omega
-
-theorem splitKey_join (ds : List Bytes) (l : Bytes) (hl : l ≠ [])
-    (hdl : DOT ∉ l) (hds : ∀ d ∈ ds, DOT ∉ d) (hs : SLASH ∉ joinRev ds l) :
-    splitKey (joinRev ds l) = some (keySteps ds l) :=
-  splitKeyAux_join ds l hl hdl hds hs _ (joinRev_length ds l hl)
-
--- ---- splitHost
-
-def lstep (acc : List Bytes × Bytes) (b : Nat) : List Bytes × Bytes :=
-  if b = DOT then (acc.2.reverse :: acc.1, []) else (acc.1, b :: acc.2)
-
-theorem labelsRev_eq (s : Bytes) :
-    labelsRev s = (s.foldl lstep ([], [])).2.reverse :: (s.foldl lstep ([], [])).1 := rfl
-
-theorem foldl_lstep_nodot (d : Bytes) (h : DOT ∉ d) (a : List Bytes) (c : Bytes) :
-    d.foldl lstep (a, c) = (a, d.reverse ++ c) := by
-  induction d generalizing c with
-  | nil => rfl
-  | cons x d ih =>
-    have hx : x ≠ DOT := by intro e; apply h; simp [e]
-    simp only [List.foldl_cons, lstep, hx, if_false]
-    rw [ih (by intro hd; apply h; simp [hd])]
-    simp
-
-theorem labelsRev_join (ds : List Bytes) (l : Bytes)
-    (hdl : DOT ∉ l) (hds : ∀ d ∈ ds, DOT ∉ d) : labelsRev (joinRev ds l) = ds ++ [l] := by
-  induction ds with
-  | nil =>
-    rw [labelsRev_eq]
-    simp only [joinRev, foldl_lstep_nodot l hdl]
-    simp
-  | cons d ds ih =>
-    have ih' := ih (fun d' h' => hds d' (List.mem_cons_of_mem _ h'))
-    have hd : DOT ∉ d := hds d (by simp)
-    rw [labelsRev_eq] at ih' ⊢
-    simp only [joinRev, List.foldl_append, List.foldl_cons]
-    generalize (joinRev ds l).foldl lstep ([], []) = r at ih' ⊢
-    obtain ⟨a, c⟩ := r
-    simp only [lstep, if_true] at ih' ⊢
-    rw [foldl_lstep_nodot d hd]
-    simp [ih']
-
-theorem segsOfLabels_snoc (ds : List Bytes) (l : Bytes) (hl : l ≠ []) :
-    segsOfLabels (ds ++ [l]) = qSegs ds l := by
-  induction ds with
-  | nil => simp [segsOfLabels, qSegs, hl]
-  | cons d ds ih =>
-    cases hds : ds ++ [l] with
-    | nil => simp at hds
-    | cons y ys =>
-      simp only [List.cons_append, hds, segsOfLabels]
-      rw [← hds, ih]
-      simp [qSegs]
-
-theorem splitHost_join (ds : List Bytes) (l : Bytes) (hl : l ≠ [])
-    (hdl : DOT ∉ l) (hds : ∀ d ∈ ds, DOT ∉ d) : splitHost (joinRev ds l) = qSegs ds l := by
-  unfold splitHost
-  rw [labelsRev_join ds l hdl hds, segsOfLabels_snoc ds l hl]
-
-
--- =============================================================== part 2 ==
-
-/-- names the trie can hold as literal keys: not empty, not starting with a dot
-    (`TrieNode::insert` panics on those), free of `/` (the trie's regex syntax).
-    `CertifiedKeyWrapper::try_from` refuses every other name (`validCertName_iff`). -/
-def GoodName (n : Bytes) : Prop := n ≠ [] ∧ n.head? ≠ some DOT ∧ SLASH ∉ n
-
-/-- server names the theorems speak about: not empty, not starting with a dot -/
-def GoodHost (n : Bytes) : Prop := n ≠ [] ∧ n.head? ≠ some DOT
-
-instance (n : Bytes) : Decidable (GoodName n) := by unfold GoodName; exact inferInstance
-instance (n : Bytes) : Decidable (GoodHost n) := by unfold GoodHost; exact inferInstance
-
-/-- the wildcard name that covers `n`: `*` in place of the left-most label -/
-def wildOf (n : Bytes) : Bytes := STAR :: n.dropWhile (· ≠ DOT)
-
-/-- the abstract trie key (labels right-to-left, left-most label) of a byte string -/
-def keyOf (n : Bytes) : List Bytes × Bytes :=
-  ((labelsRev n).dropLast, (labelsRev n).getLast?.getD [])
+-- part 1 (byte strings vs abstract trie keys) lives in `Sozu.Trie.Lemmas`; the names are re-exported
+export Sozu.Trie (joinRev joinRev_cons_left joinRev_eq_append joinRev_snoc exists_joinRev joinRev_nil_head leftmost_ne_nil find?_getD_append findLast_snoc rev_induction findLast_none findLast_join getLast?_ne_of_not_mem splitKeyAux_join joinRev_length splitKey_join lstep labelsRev_eq foldl_lstep_nodot labelsRev_join segsOfLabels_snoc splitHost_join GoodName GoodHost wildOf keyOf keyOf_join keyOf_inj T_ne good_split dropWhile_nodot wildOf_join host_split)
 
 /-- the trie entry stored under the name `n` -/
 def T (t : Node Fp) (n : Bytes) : Option (Bytes × Fp) := get t (keySteps (keyOf n).1 (keyOf n).2)
 
-theorem keyOf_join (ds : List Bytes) (l : Bytes) (hdl : DOT ∉ l) (hds : ∀ d ∈ ds, DOT ∉ d) :
-    keyOf (joinRev ds l) = (ds, l) := by
-  simp [keyOf, labelsRev_join ds l hdl hds]
-
-theorem keyOf_inj {n m : Bytes} (h : keyOf n = keyOf m) : n = m := by
-  obtain ⟨ds, l, rfl, h1, h2⟩ := exists_joinRev n
-  obtain ⟨ds', l', rfl, h1', h2'⟩ := exists_joinRev m
-  rw [keyOf_join ds l h1 h2, keyOf_join ds' l' h1' h2'] at h
-  cases h; rfl
-
-theorem T_ne {n m : Bytes} (h : m ≠ n) : ((keyOf m).1, (keyOf m).2) ≠ ((keyOf n).1, (keyOf n).2) := by
-  intro e
-  apply h
-  apply keyOf_inj
-  exact Prod.ext (by simpa using congrArg Prod.fst e) (by simpa using congrArg Prod.snd e)
-
-theorem good_split {n : Bytes} (h : GoodName n) :
-    ∃ ds l, n = joinRev ds l ∧ l ≠ [] ∧ keyOf n = (ds, l) ∧ splitKey n = some (keySteps ds l) := by
-  obtain ⟨ds, l, rfl, h1, h2⟩ := exists_joinRev n
-  have hl : l ≠ [] := leftmost_ne_nil h.1 h.2.1
-  exact ⟨ds, l, rfl, hl, keyOf_join ds l h1 h2, splitKey_join ds l hl h1 h2 h.2.2⟩
-
-theorem dropWhile_nodot (l r : Bytes) (hl : DOT ∉ l) (hr : r = [] ∨ r.head? = some DOT) :
-    (l ++ r).dropWhile (· ≠ DOT) = r := by
-  induction l with
-  | nil =>
-    rcases hr with rfl | hr
-    · rfl
-    · cases r with
-      | nil => simp at hr
-      | cons y ys => simp at hr; subst hr; simp [List.dropWhile]
-  | cons x l ih =>
-    have hx : x ≠ DOT := by intro e; apply hl; simp [e]
-    simp only [List.cons_append, List.dropWhile_cons, hx, ne_eq, not_false_eq_true, decide_true, if_true]
-    exact ih (by intro h; apply hl; simp [h])
-
-theorem wildOf_join (ds : List Bytes) (l : Bytes) (hdl : DOT ∉ l) :
-    wildOf (joinRev ds l) = joinRev ds [STAR] := by
-  unfold wildOf
-  rw [joinRev_eq_append ds l, joinRev_eq_append ds [STAR]]
-  have hr : joinRev ds [] = [] ∨ (joinRev ds []).head? = some DOT := by
-    by_cases h : ds = []
-    · subst h; left; rfl
-    · right; exact joinRev_nil_head ds h
-  rw [dropWhile_nodot l _ hdl hr]
-  rfl
-
-theorem host_split {n : Bytes} (h : GoodHost n) :
-    ∃ ds l, l ≠ [] ∧ keyOf n = (ds, l) ∧ keyOf (wildOf n) = (ds, [STAR]) ∧ splitHost n = qSegs ds l := by
-  obtain ⟨ds, l, rfl, h1, h2⟩ := exists_joinRev n
-  have hl : l ≠ [] := leftmost_ne_nil h.1 h.2
-  refine ⟨ds, l, hl, keyOf_join ds l h1 h2, ?_, splitHost_join ds l hl h1 h2⟩
-  rw [wildOf_join ds l h1]
-  exact keyOf_join ds [STAR] (by decide) h2
 
 -- ---- the trie under good names
 
